@@ -99,7 +99,8 @@ class Ctx:
                 self.extra["runaway_isolated_programs"] = self.extra.get("runaway_isolated_programs", 0) + len(lost)
                 for i in lost:
                     res[i] = [{"op": "runaway", "out": "Runaway", "why": "the program did not end in its own fresh interpreter (three attempts)"}]
-            traces = list(res)
+            traces = [([{"op": "driver_crash", "out": "Unexpected:crash", "why": r["crash"][-300:]}] if isinstance(r, dict) and "crash" in r else r)
+                      for r in res]
         else:
             traces = []
             from .drivers import common as _c
@@ -108,6 +109,10 @@ class Ctx:
                 try:
                     with _c.budget():
                         traces.append(runner(p))
+                except Exception as e:  # noqa: BLE001
+                    # the implementation did something the driver cannot even record (it never does on a conforming tree):
+                    # reported as an unexplained event with the exception's name, the replay file carries the program
+                    traces.append([{"op": "driver_crash", "out": "Unexpected:" + type(e).__name__, "why": str(e)[:300]}])
                 except _c.Runaway as e:
                     # not a step of any specification: judged (and reported) like any other unexplained event
                     traces.append([{"op": "runaway", "out": "Runaway", "why": str(e)}])
